@@ -83,7 +83,6 @@ Record attrs := mkAttrs {
   a_parent : option parentx;     (* default: contextual *)
   a_follows : option (list N);   (* `follows_from = hf(&[..])` *)
   a_skips : list N;
-  a_skip_all : bool;             (* NOT implemented by this tree's attr.rs (known finding F17): no effect *)
   a_fields : list cfield;
   a_ret : option evargs;
   a_err : option evargs }.
@@ -525,10 +524,8 @@ Fixpoint param_names (a : attrs) (i : N) (ps : list param) : list fname :=
       (if p_named p && negb (mem i (a_skips a)) && negb (overridden a i) then [FnParam i] else [])
       ++ param_names a (i + 1) r
   end.
-(** what the *property* asks for: `skip_all` (where given) leaves only the custom fields *)
 Definition expected_names (a : attrs) (f : func) : list fname :=
-  (if a_skip_all a then [] else param_names a 0 (f_params f))
-  ++ map cf_name (filter has_value (a_fields a)).
+  param_names a 0 (f_params f) ++ map cf_name (filter has_value (a_fields a)).
 Definition eval_index (cf : cfield) : list N :=
   match cf_expr cf with FxNum j _ => [j] | FxPrim j _ => [j] | FxRec j _ => [j] | FxEmpty => [] end.
 
